@@ -146,7 +146,7 @@ EDupGlobal(P, s, deep) ==
         old == Sel(gs, LAMBDA g : deep \/ g.i = 1)
     IN Flat([a \in Idx(old) |->
          LET g == old[a]
-             ks == IF deep THEN Kinds7 ELSE <<g.kind, IF g.kind = "enum" THEN "struct" ELSE "enum">>
+             ks == IF deep /\ g.i = 1 THEN Kinds7 ELSE <<g.kind, IF g.kind = "enum" THEN "struct" ELSE "enum">>
          IN [k \in Idx(ks) |-> Edit("dupGlobal", g.kind \o "+" \o ks[k], f, "file", 0,
                                     <<OpAddDef(f, MinimalDef(ks[k], g.name, s))>>)]])])
 
@@ -258,7 +258,7 @@ BadTypeEdits(P, s, deep, rule) ==
       IN Flat([c \in Idx(bs) |->
            LET b == bs[c]
                where == all[b][1]
-               ws == Wraps(vr[2], deep \/ (where = "struct" /\ a = 1))
+               ws == Wraps(vr[2], (where = "struct" /\ (deep \/ a = 1)) \/ (deep /\ a = 1 /\ where \in {"typedef", "args", "return"}))
            IN [w \in Idx(ws) |->
                  Edit(rule, vr[1] \o "/" \o ws[w][1], f, where, 0, TypePlaces(P, f, s, deep, ws[w][2])[b][2])]])])])
 EUndefinedType(P, s, deep) == BadTypeEdits(P, s, deep, "undefinedType")
@@ -384,7 +384,9 @@ EConstKind(P, s, deep) ==
     Flat([a \in Idx(KindPairs(P, f, s, deep)) |->
       LET kp == KindPairs(P, f, s, deep)[a]
           places == ValuePlaces(P, f, s, deep, kp[2], kp[3])
-          sel == IF deep \/ kp[4] THEN places ELSE <<places[1]>>
+          sel == IF kp[4] THEN places
+                 ELSE IF deep THEN Sel(places, LAMBDA pl : pl[1] \in {"const", "struct", "args"})
+                 ELSE <<places[1]>>
       IN [b \in Idx(sel) |-> Edit("constKind", kp[1], f, sel[b][1], 0, sel[b][2])]])])
 
 EOneway(P, s, deep) ==
